@@ -46,6 +46,10 @@ structure RGood (r : ZCReader α) : Prop where
 def ZCReader.run [DecidableEq α] [Inhabited α] (block4k : Nat) (r : ZCReader α) (ops : List (ROp α)) : ZCReader α :=
   ops.foldl (fun r op => (r.step block4k op).1) r
 
+theorem ZCReader.run_cons [DecidableEq α] [Inhabited α] (block4k : Nat) (r : ZCReader α) (op : ROp α) (ops : List (ROp α)) :
+    r.run block4k (op :: ops) = (r.step block4k op).1.run block4k ops := by
+  simp only [ZCReader.run, List.foldl_cons]
+
 /-! ## lists and queues -/
 
 theorem seg_length (f : Nat → α) (i n : Nat) : (seg f i n).length = n := by simp [seg]
@@ -408,6 +412,100 @@ theorem waitRead_fuel_indep [DecidableEq α] [Inhabited α] (b : Nat) (n : Int) 
               · rw [h3]; simp [hs] at h2; omega
 
 
+/-! ## the nested loops of the code (`waitReadLoop` over `fill`) compute the flat loop -/
+
+theorem waitRead_zero [DecidableEq α] [Inhabited α] (b : Nat) (r : ZCReader α) (n : Int) :
+    r.waitRead b 0 n = (r, none) := rfl
+
+theorem waitRead_succ [DecidableEq α] [Inhabited α] (b fuel : Nat) (r : ZCReader α) (n : Int) :
+    r.waitRead b (fuel + 1) n =
+      if (r.q.len : Int) ≥ n then (r, none)
+      else match r.round b with
+        | (r', some e) => (r', some e)
+        | (r', none) => r'.waitRead b fuel n := rfl
+
+/-- A bounded run of rounds (`fill` = `waitRead` with `c` rounds of fuel) is a prefix of the full run: its error is
+the full run's result; if it ends without error the full run continues from where it stopped, the script is no longer,
+and strictly shorter if it made a round at all. -/
+theorem waitRead_prefix [DecidableEq α] [Inhabited α] (b : Nat) (n : Int) :
+    ∀ (c : Nat) (r : ZCReader α) (F : Nat), r.src.script.length + 1 ≤ F →
+      (∀ r' e, r.waitRead b c n = (r', some e) → r.waitRead b F n = (r', some e)) ∧
+      (∀ r', r.waitRead b c n = (r', none) →
+         r'.src.script.length ≤ r.src.script.length ∧
+         (1 ≤ c → (r.q.len : Int) < n → r'.src.script.length < r.src.script.length) ∧
+         r.waitRead b F n = r'.waitRead b (r'.src.script.length + 1) n) := by
+  intro c
+  induction c with
+  | zero =>
+    intro r F hF
+    rw [waitRead_zero]
+    refine ⟨fun r' e h => (by cases h), fun r' h => ?_⟩
+    cases h
+    exact ⟨Nat.le_refl _, fun h => by omega, waitRead_fuel_indep b n _ _ _ hF (Nat.le_refl _)⟩
+  | succ c ih =>
+    intro r F hF
+    cases F with
+    | zero => omega
+    | succ F =>
+      rw [waitRead_succ b c, waitRead_succ b F]
+      by_cases hlen : (r.q.len : Int) ≥ n
+      · simp only [hlen, if_true]
+        refine ⟨fun r' e h => (by cases h), fun r' h => ?_⟩
+        cases h
+        refine ⟨Nat.le_refl _, fun _ h => by omega, ?_⟩
+        rw [waitRead_succ]; simp only [hlen, if_true]
+      · simp only [hlen, if_false]
+        cases hrd : r.round b with
+        | mk r1 e1 =>
+          cases e1 with
+          | some e => exact ⟨fun r' e' h => h, fun r' h => by cases h⟩
+          | none =>
+            simp only
+            cases hs : r.src.script with
+            | nil => have := (round_src_nil r b hs).1; simp [hrd] at this
+            | cons p rest =>
+              have h3 : r1.src.script = rest := by simpa [hrd] using (round_src_cons r b hs).2
+              have hF1 : r1.src.script.length + 1 ≤ F := by rw [h3]; simp [hs] at hF; omega
+              obtain ⟨ihe, ihn⟩ := ih r1 F hF1
+              refine ⟨ihe, fun r' h => ?_⟩
+              obtain ⟨hle, _, heq⟩ := ihn r' h
+              rw [h3] at hle
+              exact ⟨by simp; omega, fun _ _ => by simp; omega, heq⟩
+
+/-- `waitRead` as written in the code - an outer loop that re-arms `fill`, `fill` bounded by `cycle ≥ 1` source reads -
+returns what the flat loop returns: the cycle bound of `fill` is invisible to the caller of `waitRead`.
+(`cycle = 0` would make the code spin for ever; the model would run out of fuel.) -/
+theorem waitReadLoop_eq_of_fuel [DecidableEq α] [Inhabited α] (b cycle : Nat) (hc : 1 ≤ cycle) (n : Int) :
+    ∀ (fuel : Nat) (r : ZCReader α), r.src.script.length + 1 ≤ fuel →
+      r.waitReadLoop b cycle fuel n = r.waitRead b (fuelOf r) n := by
+  intro fuel
+  induction fuel with
+  | zero => intro r h; omega
+  | succ fuel ih =>
+    intro r hfuel
+    unfold ZCReader.waitReadLoop
+    by_cases hlen : (r.q.len : Int) ≥ n
+    · simp only [hlen, if_true, fuelOf]
+      rw [waitRead_succ]; simp only [hlen, if_true]
+    · simp only [hlen, if_false]
+      obtain ⟨hpe, hpn⟩ := waitRead_prefix b n cycle r (fuelOf r) (Nat.le_refl _)
+      cases hf : r.fill b cycle n with
+      | mk r' e =>
+        unfold ZCReader.fill at hf
+        cases e with
+        | some e => exact (hpe r' e hf).symm
+        | none =>
+          simp only
+          obtain ⟨_, hlt, heq⟩ := hpn r' hf
+          have hlt := hlt hc (by omega)
+          rw [ih r' (by omega), heq]; rfl
+
+/-- the loop of the code with the code's cycle bound (`Gen.c_maxReadCycle`, regenerated from `maxReadCycle`) -/
+theorem waitReadLoop_eq [DecidableEq α] [Inhabited α] (b : Nat) (r : ZCReader α) (n : Int) :
+    r.waitReadLoop b Gen.c_maxReadCycle (fuelOf r) n = r.waitRead b (fuelOf r) n :=
+  waitReadLoop_eq_of_fuel b _ (by decide) n _ r (Nat.le_refl _)
+
+
 /-! ## reader calls -/
 
 /-- `q'` is `q` with `bs`, its first readable bytes, taken off the front -/
@@ -648,17 +746,23 @@ include hr
 theorem step_next (n : Int) :
     StepOK r (r.step b (.next n)) ∧ ∀ res, (r.step b (.next n)).2 = .ok res →
       ∃ bs, res = .bytes bs ∧ bs.length = n.toNat ∧ Delivers r (r.step b (.next n)).1 bs :=
-  wait_consume hr b n (.next n) _ (fun _ h f => (contract_read h f).1 n) (fun _ h => readSpec_next h n)
+  by
+  simp only [ZCReader.step, waitReadLoop_eq]
+  exact wait_consume hr b n (.next n) _ (fun _ h f => (contract_read h f).1 n) (fun _ h => readSpec_next h n)
 
 theorem step_readBinary (n : Int) :
     StepOK r (r.step b (.readBinary n)) ∧ ∀ res, (r.step b (.readBinary n)).2 = .ok res →
       ∃ bs, res = .bytes bs ∧ bs.length = n.toNat ∧ Delivers r (r.step b (.readBinary n)).1 bs :=
-  wait_consume hr b n (.readBinary n) _ (fun _ h f => (contract_read h f).2.2.2.1 n) (fun _ h => readSpec_readBinary h n)
+  by
+  simp only [ZCReader.step, waitReadLoop_eq]
+  exact wait_consume hr b n (.readBinary n) _ (fun _ h f => (contract_read h f).2.2.2.1 n) (fun _ h => readSpec_readBinary h n)
 
 theorem step_readByte :
     StepOK r (r.step b .readByte) ∧ ∀ res, (r.step b .readByte).2 = .ok res →
       ∃ bs, res = .bytes bs ∧ bs.length = 1 ∧ Delivers r (r.step b .readByte).1 bs :=
-  wait_consume hr b 1 .readByte _ (fun _ h f => (contract_read h f).2.2.2.2.1) (fun _ h => readSpec_readByte h)
+  by
+  simp only [ZCReader.step, waitReadLoop_eq]
+  exact wait_consume hr b 1 .readByte _ (fun _ h f => (contract_read h f).2.2.2.2.1) (fun _ h => readSpec_readByte h)
 
 theorem step_until (c : α) :
     StepOK r (r.step b (.until c)) ∧ ∀ res, (r.step b (.until c)).2 = .ok res →
@@ -690,7 +794,7 @@ theorem step_peek (n : Int) :
         bs = (r.step b (.peek n)).1.q.flushedBytes.take bs.length := by
   have hstep : r.step b (.peek n) = (match r.waitRead b (fuelOf r) n with
       | (r1, some e) => (r1, ARes.fail e)
-      | (r1, none) => r1.bufOp (.peek n) false) := rfl
+      | (r1, none) => r1.bufOp (.peek n) false) := by rw [ZCReader.step, waitReadLoop_eq]; rfl
   rw [hstep]
   cases hw : r.waitRead b (fuelOf r) n with
   | mk r1 res =>
@@ -720,7 +824,7 @@ theorem step_skip (n : Int) :
       | (r1, none) =>
         let skipped := if n ≤ 0 ∨ r1.q.len < n.toNat then [] else r1.q.firstBytes n.toNat
         let (r', res) := r1.bufOp (.skip n) false
-        ({ r' with delivered := r'.delivered ++ skipped }, res)) := rfl
+        ({ r' with delivered := r'.delivered ++ skipped }, res)) := by rw [ZCReader.step, waitReadLoop_eq]; rfl
   rw [hstep]
   cases hw : r.waitRead b (fuelOf r) n with
   | mk r1 res =>
@@ -826,16 +930,15 @@ theorem waitRead_pad_irrelevant [DecidableEq α] (i1 i2 : Inhabited α) (b : Nat
 
 theorem step_pad_irrelevant [DecidableEq α] (i1 i2 : Inhabited α) {r : ZCReader α} (hr : RGood r) (b : Nat) (op : ROp α) :
     @ZCReader.step α _ i1 b r op = @ZCReader.step α _ i2 b r op := by
-  cases op <;> simp only [ZCReader.step, waitRead_pad_irrelevant i1 i2 b _ _ r hr]
+  cases op <;> simp only [ZCReader.step, waitReadLoop_eq, waitRead_pad_irrelevant i1 i2 b _ _ r hr]
 
 theorem run_pad_irrelevant [DecidableEq α] (i1 i2 : Inhabited α) (b : Nat) (ops : List (ROp α)) :
     ∀ r : ZCReader α, RGood r → @ZCReader.run α _ i1 b r ops = @ZCReader.run α _ i2 b r ops := by
   induction ops with
-  | nil => intro r _; rfl
+  | nil => intro r _; simp only [ZCReader.run, List.foldl_nil]
   | cons op ops ih =>
     intro r hr
-    show @ZCReader.run α _ i1 b (@ZCReader.step α _ i1 b r op).1 ops = @ZCReader.run α _ i2 b (@ZCReader.step α _ i2 b r op).1 ops
-    rw [step_pad_irrelevant i1 i2 hr b op]
+    rw [@ZCReader.run_cons α _ i1, @ZCReader.run_cons α _ i2, step_pad_irrelevant i1 i2 hr b op]
     exact ih _ (@step_ok α _ i2 r hr b op).1
 
 theorem step_delivered_prefix [DecidableEq α] [Inhabited α] {r : ZCReader α} (hr : RGood r) (b : Nat) (op : ROp α) :
